@@ -786,6 +786,30 @@ fn oracles(w: &mut World, pre_lower: &[usize], out: &mut String) {
             }
         }
     }
+    // O5/O6 through the public API: every handle the program holds reports the ledger's counts;
+    // a Weak to a destroyed object reports 0/0 on every teardown path
+    for (i, h) in w.roots.iter().enumerate() {
+        let o = w.root_ids[i];
+        if o < n && alive(w, o) && !w.objs[o].freed && w.is_live(o) {
+            let (sc, wc) = (Rc::strong_count(h), Rc::weak_count(h));
+            if sc != strong[o] || wc != weak[o] {
+                fails.push(format!("O6:root-{}-reports-{}/{}-ledger-{}/{}", i, sc, wc, strong[o], weak[o]));
+            }
+        }
+    }
+    for (i, h) in w.wroots.iter().enumerate() {
+        let o = w.wroot_ids[i];
+        if o < n && !w.objs[o].freed {
+            let (sc, wc) = (h.strong_count(), h.weak_count());
+            if alive(w, o) {
+                if sc != strong[o] || wc != weak[o] {
+                    fails.push(format!("O5:weak-{}-reports-{}/{}-ledger-{}/{}", i, sc, wc, strong[o], weak[o]));
+                }
+            } else if sc != 0 || wc != 0 {
+                fails.push(format!("O5:weak-{}-to-destroyed-object-{}-reports-{}/{}", i, o, sc, wc));
+            }
+        }
+    }
     // O3: lower bound on what this op had to destroy
     for &o in pre_lower {
         if !w.objs[o].destroyed {
